@@ -281,7 +281,7 @@ func (c *Ctx) ruleCmpUnsigned(rule string, dirs ...string) {
 			}
 			ord := 0
 			for _, r := range returnsOf(f) {
-				for _, v := range phiInputs(r.Results[0]) {
+				for _, v := range phiInputs(resultOf(r, 0)) {
 					cv, ok := v.(*ssa.Convert)
 					if !ok {
 						continue
